@@ -153,6 +153,46 @@ func canonResponse(res *listoffsets.Response) string {
 	return fmt.Sprintf("%d|%s", res.ThrottleTimeMs, dash(strings.Join(ts, "|")))
 }
 
+// opSplit: what (*Request).Split puts into each single-partition request: the header fields and the partition's number,
+// current leader epoch and timestamp.
+//
+//	split <replica> <iso> <topic:part@ts@epoch.…|…>  → "replica/iso/topic/part/epoch/ts;…"
+func opSplit(r *rand.Rand, n int) {
+	for i := 0; i < n; i++ {
+		ts := randomReq(r, 4)
+		req := toProto(ts)
+		req.ReplicaID = int32(r.Intn(3)) - 1
+		req.IsolationLevel = int8(r.Intn(2))
+		var enc []string
+		for ti := range req.Topics {
+			var ps []string
+			for pi := range req.Topics[ti].Partitions {
+				p := &req.Topics[ti].Partitions[pi]
+				p.CurrentLeaderEpoch = []int32{-1, 0, 3, 7}[r.Intn(4)]
+				ps = append(ps, fmt.Sprintf("%d@%d@%d", p.Partition, p.Timestamp, p.CurrentLeaderEpoch))
+			}
+			enc = append(enc, req.Topics[ti].Topic+":"+dash(strings.Join(ps, ".")))
+		}
+		op := fmt.Sprintf("split %d %d %s", req.ReplicaID, req.IsolationLevel, dash(strings.Join(enc, "|")))
+		msgs, _, err := req.Split(protocol.Cluster{})
+		if err != nil {
+			emit(op, "err")
+			continue
+		}
+		var out []string
+		for _, m := range msgs {
+			sub := m.(*listoffsets.Request)
+			for _, t := range sub.Topics {
+				for _, p := range t.Partitions {
+					out = append(out, fmt.Sprintf("%d/%d/%s/%d/%d/%d", sub.ReplicaID, sub.IsolationLevel, t.Topic, p.Partition, p.CurrentLeaderEpoch, p.Timestamp))
+				}
+			}
+			out[len(out)-1] += ";"
+		}
+		emit(op, dash(strings.TrimSuffix(strings.Join(out, ""), ";")))
+	}
+}
+
 func opMerge(r *rand.Rand, n int) {
 	for i := 0; i < n; i++ {
 		ts := randomReq(r, 4)
@@ -231,7 +271,7 @@ func opClientListOffsets(seed int64, n int) {
 		t := &fakecluster.Topic{Parts: map[int32]*fakecluster.Part{}}
 		for p := int32(0); p < 4; p++ {
 			first := int64(r.Intn(50))
-			part := &fakecluster.Part{Leader: ids[r.Intn(nb)], First: first, Last: first + int64(r.Intn(100))}
+			part := &fakecluster.Part{Leader: ids[r.Intn(nb)], First: first, Last: first + int64(r.Intn(100)), Epoch: int32(r.Intn(4))}
 			for k, off := 0, first; k < r.Intn(5); k++ {
 				part.Times = append(part.Times, fakecluster.TimeIndex{Timestamp: int64(1000 + k*700 + r.Intn(600)), Offset: off})
 				off += int64(1 + r.Intn(10))
@@ -441,6 +481,7 @@ func main() {
 		nMerge, nClient, nScen, nSeek = 8000, 120, 40, 4000
 	}
 	opMerge(r, nMerge)
+	opSplit(r, nMerge/3)
 	for i := 0; i < nScen; i++ {
 		opClientListOffsets(gen.Seed()*100+int64(i), nClient)
 	}
